@@ -291,10 +291,16 @@ func worker(id, tier string, idx, W int, seed int64, out string) {
 		if n > 0 {
 			testing.Init()
 			flag.CommandLine.Parse(nil)
-			flag.Set("rapid.checks", strconv.Itoa(n))
-			flag.Set("rapid.seed", strconv.FormatInt(seed, 10))
-			flag.Set("rapid.nofailfile", "true")
-			flag.Set("rapid.shrinktime", "20s")
+			// rapid looks for fail files of earlier runs under ./testdata/rapid and replays them
+			// first; a worker's exploration must depend on nothing but its seed
+			if err := os.Chdir(filepath.Dir(out)); err != nil {
+				fatal2("%v", err)
+			}
+			for _, kv := range [][2]string{{"rapid.checks", strconv.Itoa(n)}, {"rapid.seed", strconv.FormatInt(seed, 10)}, {"rapid.nofailfile", "true"}, {"rapid.shrinktime", "20s"}} {
+				if err := flag.Set(kv[0], kv[1]); err != nil {
+					fatal2("cannot configure rapid: %v", err)
+				}
+			}
 			wantClass := ""
 			var lastCase *Case
 			var lastV Violation
